@@ -65,9 +65,11 @@ ENTITIES = {
     "CARRIER": ([], [("load", ref("POINT", "DPOINT"), False, False), ("note", STR, False, False)]),
     "DCARRIER": (["CARRIER"], [("extra", INT, False, False)]),
     "LCARRIER": (["CARRIER"], []),
+    "BASE2": ([], [("bn", NUMBER, False, False), ("bt", STR, False, False)]),
+    "RED2": (["BASE2"], [("rs", STR, False, False)]),
 }
 # attributes redeclared in a subtype with a narrower type (not derived): (entity, attr) -> the type instances of that entity need
-REDECLARED_IN = {("DCARRIER", "load"): ref("DPOINT"), ("LCARRIER", "load"): ref("DPOINT")}
+REDECLARED_IN = {("DCARRIER", "load"): ref("DPOINT"), ("LCARRIER", "load"): ref("DPOINT"), ("RED2", "bn"): INT}
 ABSTRACT = {"BASE"}
 # attributes redeclared as DERIVE in a subtype: (entity, supertype attr) -> written as '*'
 DERIVED_IN = {("DPOINT", "tag"), ("SI_B", "dims")}
